@@ -495,10 +495,12 @@ func run1(in Sx) Sx {
 		var buf bytes.Buffer
 		q := packet.Make()
 		ok := false
+		var frame []byte
 		pn, _ := Catch(func() {
 			if _, err := enc.WritePacket(&buf, ec, p); err != nil {
 				return
 			}
+			frame = append([]byte{}, buf.Bytes()...)
 			if err := enc.ReadPacket(&buf, dc, q); err != nil {
 				return
 			}
@@ -509,6 +511,24 @@ func run1(in Sx) Sx {
 		}
 		obs := []Sx{Int(1), hdrOfPkt(q).sx(), bodySx(q.Body()), Int(int64(q.Errno())),
 			res(func() Sx { return Bytes(q.BodyToBytes()) })}
+		// a relay that forwards a copy: the frame decoded once more, Clone(), the clone sent on
+		cl := List(Int(0))
+		Catch(func() {
+			qq := packet.Make()
+			if err := enc.ReadPacket(bytes.NewBuffer(frame), dc, qq); err != nil {
+				return
+			}
+			c := qq.Clone()
+			var b2 bytes.Buffer
+			q3 := packet.Make()
+			if _, err := enc.WritePacket(&b2, ec, c); err != nil {
+				return
+			}
+			if err := enc.ReadPacket(&b2, dc, q3); err != nil {
+				return
+			}
+			cl = List(Int(1), hdrOfPkt(q3).sx(), bodySx(q3.Body()))
+		})
 		// send the decoded packet on again, as a forwarding node would
 		q2 := packet.Make()
 		ok = false
@@ -527,7 +547,7 @@ func run1(in Sx) Sx {
 		} else {
 			obs = append(obs, List(Int(1), hdrOfPkt(q2).sx(), bodySx(q2.Body())))
 		}
-		return ListOf(obs)
+		return ListOf(append(obs, cl))
 	case 9:
 		// several numeric wire forms alive at the same time (a batching writer): BodyToBytes on A,
 		// B and C first, the three slices are looked at only afterwards; then A crosses the codec
